@@ -1219,8 +1219,20 @@ impl Writer {
       // If all_irrelevant_before is still None, then TopicCache has SNs that are
       // less than equal to the requested "unsent_sn". But might not have that exact
       // SN.
+      // A sample written for one particular other reader (possibly before this reader was
+      // matched, so that it is not in pending_gaps) is irrelevant to this reader.
+      let meant_for_other_reader = self
+        .history_buffer
+        .get_by_sn(unsent_sn)
+        .and_then(|cc| cc.write_options.to_single_reader())
+        .is_some_and(|single_reader_guid| single_reader_guid != reader_guid);
+
       if pending_gaps.contains(&unsent_sn) || all_irrelevant_before.is_some() {
         no_longer_relevant.extend(pending_gaps);
+      } else if meant_for_other_reader {
+        // send_cache_change would refuse to send it. Tell the reader with a GAP instead of
+        // silently dropping the request.
+        no_longer_relevant.insert(unsent_sn);
       } else {
         // Reader not pending gap on unsent_sn. Get the cache change from topic cache
         if let Some(cc) = self.history_buffer.get_by_sn(unsent_sn) {
@@ -1384,12 +1396,21 @@ impl Writer {
     let first_keeper = if !self.like_stateless {
       // Regular stateful writer behavior
       // All readers have acked up to this point (SequenceNumber)
+      // Only reliable readers ever acknowledge anything. If there is no reliable reader,
+      // then nobody is waiting for an acknowledgment and only the history depth counts.
       let acked_by_all_readers = self
         .readers
         .values()
+        .filter(|rp| rp.qos().is_reliable())
         .map(RtpsReaderProxy::acked_up_to_before)
         .min()
-        .unwrap_or_else(SequenceNumber::zero);
+        .unwrap_or_else(|| self.history_buffer.last_change_sequence_number().plus_1());
+      // An ACKNACK may claim more than has ever been written. Do not let that move the
+      // first keeper beyond the stored samples, where remove_changes_before finds nothing.
+      let acked_by_all_readers = min(
+        acked_by_all_readers,
+        self.history_buffer.last_change_sequence_number().plus_1(),
+      );
       // If all readers have acked all up to before 5, and depth is 5, we need
       // to keep samples 0..4, i.e. from acked_up_to_before - depth .
       max(
@@ -1729,6 +1750,44 @@ impl Writer {
 impl Writer {
   pub(crate) fn verif_matched_readers(&self) -> Vec<GUID> {
     self.readers.keys().copied().collect()
+  }
+}
+
+// Verification hooks: fire timed events without the wall-clock timer, read-only state views.
+#[cfg(rustdds_verif)]
+impl Writer {
+  /// Runs the handler of one timed event exactly as handle_timed_event would, without re-arming.
+  pub(crate) fn verif_fire(&mut self, e: TimedEvent) {
+    match e {
+      TimedEvent::Heartbeat => self.handle_heartbeat_tick(false),
+      TimedEvent::CacheCleaning => self.handle_cache_cleaning(),
+      TimedEvent::SendRepairData { to_reader } => self.handle_repair_data_send(to_reader),
+      TimedEvent::SendRepairFrags { to_reader } => self.handle_repair_frags_send(to_reader),
+    }
+  }
+  /// (first_seq, last_seq, sequence numbers get_by_sn can still return)
+  pub(crate) fn verif_history(&self) -> (i64, i64, Vec<i64>) {
+    (
+      i64::from(self.history_buffer.first_change_sequence_number()),
+      i64::from(self.history_buffer.last_change_sequence_number()),
+      self
+        .history_buffer
+        .sequence_number_to_instant
+        .keys()
+        .filter(|sn| self.history_buffer.get_by_sn(**sn).is_some())
+        .map(|sn| i64::from(*sn))
+        .collect(),
+    )
+  }
+  pub(crate) fn verif_reader_proxies(&self) -> Vec<&RtpsReaderProxy> {
+    self.readers.values().collect()
+  }
+  /// (wait_until, readers_pending) of the pending ack waiter
+  pub(crate) fn verif_ack_waiter(&self) -> Option<(i64, Vec<GUID>)> {
+    self
+      .ack_waiter
+      .as_ref()
+      .map(|aw| (i64::from(aw.wait_until), aw.readers_pending.iter().copied().collect()))
   }
 }
 
